@@ -77,7 +77,7 @@ def generate(rng, tier):
             view["dx"], view["dy"] = None, None
     return {"mesh": m, "view": view, "direction": direction, "layers": gen_layers(rng, m["ndim"]),
             "call_mode": rng.choice([None, None, "image"]), "sched": draw_schedule_config(rng, maxT=8),
-            "knob": rng.choice([None, None, None, 1024, 16384])}
+            "knob": rng.choice([None, None, None, 1024, 16384]), "render": rng.random() < 0.012}
 
 
 def describe(case):
@@ -250,6 +250,51 @@ def any_cell_visible(case, cells, loc, origin_s, nuv):
     return False
 
 
+def render_clause(case, dg, p1, V, stats):
+    """plot=True: the QuadMesh of every image layer carries the layer's data and the axes span the window."""
+    import matplotlib
+
+    matplotlib.use("Agg")
+    import matplotlib.pyplot as plt
+    from matplotlib.collections import QuadMesh
+
+    try:
+        plot, calls, kw = call_map(case, dg, lambda: Sim(T=1), extra={"plot": True})
+    except Exception as e:
+        stats.inc("ambig.rendering_failed_in_matplotlib")
+        plt.close("all")
+        return
+    try:
+        stats.inc("probe.rendered_with_matplotlib")
+        meshes = [c for c in plot.ax.collections if isinstance(c, QuadMesh)]
+        image_layers = [k for k, l in enumerate(case["layers"]) if (l.get("mode") if l.get("mode") is not None else case.get("call_mode")) in (None, "image")]
+        if len(meshes) != len(image_layers):
+            V("render", "quadmesh-count", {"got": len(meshes), "want": len(image_layers)})
+            return
+        for qm, k in zip(meshes, image_layers):
+            arr = np.ma.masked_invalid(np.ma.asarray(qm.get_array()))
+            want = p1.layers[k]["data"]
+            if arr.size != want.size:
+                V("render", "quadmesh-shape", {"layer": k, "got": list(arr.shape), "want": list(want.shape)})
+                return
+            arr = arr.reshape(want.shape)
+            ma, mw = np.ma.getmaskarray(arr), np.ma.getmaskarray(want)
+            if not np.array_equal(ma, mw) or not np.allclose(np.ma.getdata(arr)[~ma], np.ma.getdata(want)[~mw], rtol=1e-12, atol=0):
+                V("render", "quadmesh-data", {"layer": k})
+                return
+        xs, ys = np.asarray(p1.x, dtype=float), np.asarray(p1.y, dtype=float)
+        for name, c, lim in (("x", xs, plot.ax.get_xlim()), ("y", ys, plot.ax.get_ylim())):
+            if len(c) < 2:
+                continue
+            sp = c[1] - c[0]
+            want = (c[0] - 0.5 * sp, c[-1] + 0.5 * sp)
+            if not np.allclose(lim, want, rtol=1e-9, atol=1e-12 * max(1.0, abs(want[0]), abs(want[1]))):
+                V("render", "axis-limits", {"axis": name, "got": list(lim), "want": list(want)})
+                return
+    finally:
+        plt.close("all")
+
+
 def setup(case):
     import osyris
 
@@ -372,6 +417,8 @@ def execute(case, stats):
                 ma, mb = np.ma.getmaskarray(a), np.ma.getmaskarray(b)
                 if info["n_amb"] == 0 and (not np.array_equal(ma, mb) or not np.array_equal(np.ma.getdata(a)[~ma], np.ma.getdata(b)[~mb])):
                     V("schedule-dependence", "pixels", {"layer": k})
+    if case.get("render") and not viol:
+        render_clause(case, dg, p1, V, stats)
     wl = core.digest({k: case[k] for k in ("mesh", "view", "direction", "layers", "call_mode")})[:16]
     res["signature"] = wl + ":" + sig
     res["nontrivial"] = bool(info["n_unique"] >= 4 and (nshared > 0 or info["levels"] >= 2))
